@@ -21,6 +21,9 @@ def main():
         from rtc import runner
         mod = importlib.import_module(rr["module"])
         fn = getattr(mod, rr["function"])
+        if rr["case"].get("kind") == "sequence":
+            from rtc import driver
+            fn = driver._SeqFn(fn)          # a group of cases run one after the other in one process
         res = runner.run_cases(fn, [rr["case"]], procs=1)[0]
         print("  re-run   :", json.dumps(res, default=str)[:600])
         if res.get("status") == "violated":
